@@ -363,6 +363,24 @@ def gen_newops(rng, tier):
     return cases
 
 
+def gen_sweeps(rng, tier):
+    """Exhaustive sweeps run inside the harness (implementation against the geometry of the scheme):
+    all interval pairs of small CSI geometries; for BAI all intervals/pairs whose end points are tile
+    boundaries -1/0/+1 in windows of consecutive 16 KiB tiles placed across boundaries of every level."""
+    cases = [dict(op='sweep_csi', minshift=ms, depth=d) for ms, d in ((0, 2), (1, 1), (0, 1), (4, 1), (3, 0))]
+    if tier != 'quick':
+        cases += [dict(op='sweep_csi', minshift=ms, depth=d) for ms, d in ((1, 2), (2, 1), (3, 1), (7, 0), (0, 0))]
+    nt = 16 if tier == 'quick' else 24
+    wins = [0, 32768 - nt]
+    for k in range(1, 5):
+        for _ in range(1 if tier == 'quick' else 40):
+            wins.append(max(0, min(32768 - nt, rng.randrange(1, 32768 // 8 ** k) * 8 ** k - rng.randrange(1, nt))))
+    cases += [dict(op='sweep_bai', win=w, ntiles=nt) for w in wins]
+    if tier != 'quick':
+        cases.append(dict(op='sweep_bai_full'))
+    return cases
+
+
 def load_corpus():
     cases = []
     d = os.path.join(core.ROOT, 'corpus', 'C16')
@@ -449,6 +467,25 @@ def key(c):
 def run(res, rng, tier):
     cases = load_corpus() + gen_recs(rng, tier) + gen_newops(rng, tier) + gen_bins(rng, tier)
     obs = core.run_harness('c16', cases, jobs=4)
+    # exhaustive sweeps inside the harness; every failure is turned into an ordinary case and judged again here
+    sweeps = gen_sweeps(rng, tier)
+    sobs = core.run_harness('c16', sweeps, jobs=4, case_timeout='300s')
+    swept = 0
+    for c, o in zip(sweeps, sobs):
+        res.count('%s/%s' % (c['op'], 'ms%d-d%d' % (c['minshift'], c['depth']) if c['op'] == 'sweep_csi' else 'window'))
+        if 'intervals' not in o:
+            res.corr_bad.append(dict(case=c, obs=strip(o)))
+            continue
+        swept += o['intervals'] + o['pairs']
+        for f in o.get('fails') or []:
+            cc = dict(op='csi', minshift=c['minshift'], depth=c['depth']) if c['op'] == 'sweep_csi' else dict(op='bai')
+            cc.update(b1=f['b1'], e1=f['e1'], b2=f['b2'], e2=f['e2'])
+            cases.append(cc)
+            obs.append(core.run_harness('c16', [cc])[0])
+            if not oracle(cc, obs[-1]):
+                res.failures.append(dict(sig='sweep:%s:%s' % (cc['op'], f['kind']), what='exhaustive sweep %s: %s' % (c, f), case=cc, observed=strip(obs[-1]), expected=f.get('want')))
+    res.evaluations += swept
+    res.extra['sweep_intervals_and_pairs'] = swept
     terms = []
     unknown_panics = 0
     for c, o in zip(cases, obs):
@@ -477,10 +514,12 @@ def run(res, rng, tier):
     res.rule = ('records: positions biased to the tile boundaries of all six BAI levels (and -1, 2^29-1, beyond), CIGARs over all nine operations plus B '
                 '(plain, clipped incl. broken clipping, backwards moves, lengths 0..2^28-1, ends aimed at tile boundaries +-1), all flag combinations of 0x4/0x8; '
                 'NewCigarOp over all 16 type codes x legal/illegal lengths; BAI and CSI interval pairs (22 fixed geometries + random ones, depth 0..10, min_shift 0..32) '
-                'placed touching / adjacent / nested / equal / apart around tile boundaries of every level. '
+                'placed touching / adjacent / nested / equal / apart around tile boundaries of every level; plus exhaustive sweeps inside the harness '
+                '(all interval pairs of small CSI geometries, all tile-boundary+-1 intervals and pairs in windows of consecutive 16 KiB tiles) counted in evaluations. '
                 'A case is distinct by its full input; non-trivial = mapped record with a non-empty CIGAR of known operations, legal NewCigarOp, or an overlapping interval pair')
     pick = [i for i, c in enumerate(cases) if c['op'] == 'rec'][:2] + [i for i, c in enumerate(cases) if c['op'] == 'bai'][:1] + [i for i, c in enumerate(cases) if c['op'] == 'csi'][:2]
     res.samples = [dict(case=cases[i], observed=strip(obs[i])) for i in pick]
+    res.extra['traces_validated_against_impl'] = len(terms)
     res.trusted = TRUSTED
     res.assumptions = ASSUME
 
